@@ -15,11 +15,13 @@ import hashlib
 import json
 import os
 import signal
-import threading
+import multiprocessing as mp
+import re
 import time
+from concurrent.futures import ProcessPoolExecutor
 
 from lib import tlc
-from lib.common import ROOT, Machinery, import_spsdk, rng, say, scratch, sha
+from lib.common import ROOT, Machinery, import_spsdk, rng, say, scratch
 from lib.par import pmap
 from lib.verdict import Verdict
 
@@ -460,14 +462,33 @@ def process(sp, job):
                 for _ in range(tamper_n):
                     lo, hi = r.choice(spans)
                     flips.append((c, r.randrange(lo, hi), r.randrange(8)))
+        variants = []
         for c, p, b in flips:
             d2 = bytearray(data)
             d2[p] ^= 1 << b
-            d2 = bytes(d2)
+            variants.append((c, p, b, bytes(d2)))
+        # CTR malleability: change one address bit of a command AND repair the command's checksum byte in the ciphertext, so that only the
+        # section HMAC stands between the forged command and the loader
+        cmds = [e for e in evs if e["ev"] == "Cmd"]
+        for e in r.sample(cmds, min(len(cmds), 2 if not all_bits else len(cmds))):
+            import struct
+
+            pt = bytearray(struct.pack("<2BH3L", 0, e["tag"], e["flags"], e["addr"][0] << 16 | e["addr"][1], e["cnt"][0] << 16 | e["cnt"][1],
+                                       e["dat"][0] << 16 | e["dat"][1]))
+            pt[0] = rom._chk(pt)
+            j, b = 4 + r.randrange(4), r.randrange(8)
+            pt2 = bytearray(pt)
+            pt2[j] ^= 1 << b
+            pt2[0] = rom._chk(pt2)
+            d2 = bytearray(data)
+            for k in range(16):
+                d2[e["at"] * 16 + k] ^= pt[k] ^ pt2[k]
+            variants.append(("forged_command", e["at"] * 16 + j, b, bytes(d2)))
+        for c, p, b, d2 in variants:
             tid = f"{idx}@{c}@{p}.{b}"
             out["traces"].append(mk_trace("tamper-rom-" + tid, "rom", "tamper", with_markers(rom.run(d2, kek)), given=given, idx=idx, ver=ver, cls=c,
                                           of=f"rom-{idx}"))
-            if not all_bits or r.random() < 0.05:
+            if not all_bits or c == "forged_command" or r.random() < 0.05:
                 out["traces"].append(mk_trace("tamper-parse-" + tid, "parse", "tamper", observe_parse(sp, ver, d2, kek), ref=ref, idx=idx, ver=ver, cls=c,
                                               of=f"parse-{idx}"))
         # wrong KEK: one flipped bit, and an unrelated key
@@ -537,17 +558,50 @@ def soft_key(t, name):
     return f"C04/{'section' if name in ('section_id', 'hmac_count') else 'header'}/{name}"
 
 
-def validate(traces, heap="8g", timeout=1200):
-    """Batch TV in one TLC run. -> (rej: {id: (matched, length, evname)} traces not consumed to their end (a HARD clause failed at that event),
-    soft: {id: [names]} soft clauses TLC evaluated to FALSE)"""
+_pool = None
+_base = [0]
+
+
+def pool():
+    """TLC runs that may overlap are started from forked children: every child numbers its TLC scratch files from its own base."""
+    global _pool
+    if _pool is None:
+        scratch()
+        _pool = ProcessPoolExecutor(max_workers=6, mp_context=mp.get_context("fork"))
+    return _pool
+
+
+def _child(base, fn, *args):
+    tlc._counter[0] = base
+    return fn(*args)
+
+
+def submit(fn, *args):
+    _base[0] += 1000
+    return pool().submit(_child, _base[0], fn, *args)
+
+
+def _tv_chunk(chunk, heap, timeout):
+    rej, res = tlc.tv("C04", "Sb2RomTrace", chunk, heap=heap, timeout=timeout)
+    return rej, res.tuples("SOFT")
+
+
+def validate(traces, heap="6g", timeout=1500, chunk=None):
+    """Batch TV (chunks of `chunk` traces, up to 4 TLC runs side by side).
+    -> (rej: {id: (matched, length, evname)} traces not consumed to their end (a HARD clause failed at that event),
+        soft: {id: [names]} soft clauses TLC evaluated to FALSE)"""
     if not traces:
         return {}, {}
+    chunk = chunk or min(6000, max(300, -(-len(traces) // 3)))
     ids = [t["id"] for t in traces]
-    rej_n, res = tlc.tv("C04", "Sb2RomTrace", [dict(_strip(t), id=i) for i, t in enumerate(traces)], heap=heap, timeout=timeout)
-    rej = {ids[i]: x for i, x in rej_n.items()}
-    soft = {}
-    for i, name in res.tuples("SOFT"):
-        soft.setdefault(ids[i], []).append(name)
+    numbered = [dict(_strip(t), id=i) for i, t in enumerate(traces)]
+    futs = [submit(_tv_chunk, numbered[k:k + chunk], heap, timeout) for k in range(0, len(numbered), chunk)]
+    rej, soft = {}, {}
+    for f in futs:
+        rej_n, soft_n = f.result()
+        rej.update({ids[i]: x for i, x in rej_n.items()})
+        for i, name in soft_n:
+            soft.setdefault(ids[i], []).append(name)
     return rej, {k: sorted(x) for k, x in soft.items()}
 
 
@@ -646,26 +700,32 @@ MC_ACTIONS = ("DoParseHeader", "DoUnwrap", "DoHdrMac20", "DoHdrMac21", "DoCert21
 CONFIGS = {"quick": ["", "_3sec", "_1sec"], "thorough": ["", "_3sec", "_1sec", "_t0", "_t1", "_t2"]}
 
 
-def mc_all(tier, box):
-    """The MC runs (lemmas over every shape of each constant set) - in a thread, the Python side only needs them at the end."""
-    try:
-        box["mc"] = []
-        for name in CONFIGS[tier]:
-            big = name in ("_t0", "_t1", "_t2")
-            box["mc"].append(tlc.mc("C04", "Sb2RomMC", f"Sb2RomMC{name}.cfg", workers=16 if big else 4, heap="24g" if big else "6g",
-                                    timeout=2400 if big else 500, require_actions=MC_ACTIONS))
-    except BaseException as x:  # noqa: BLE001
-        box["err"] = x
+def mc_all(tier):
+    """The MC runs (lemmas over every shape of each constant set) - in a child process, the Python side only needs them at the end."""
+    out = []
+    for name in CONFIGS[tier]:
+        big = name in ("_t0", "_t1", "_t2")
+        r = tlc.mc("C04", "Sb2RomMC", f"Sb2RomMC{name}.cfg", workers=16 if big else 4, heap="24g" if big else "6g", timeout=2400 if big else 500,
+                   require_actions=MC_ACTIONS)
+        r.out = r.out[-4000:]
+        out.append(r)
+    return out
 
 
-def gen_all(tier):
+def _gen_one(name):
+    g = tlc.run("C04", "Sb2RomMC", f"Sb2RomGen{name}.cfg", workers=1, deadlock=False, heap="6g", timeout=600)
+    got = g.json_prints()
+    if len(got) != g.distinct or len(got) < 100:
+        raise Machinery(f"GEN Sb2RomGen{name}: {len(got)} shapes printed, {g.distinct} initial states")
+    return got
+
+
+def gen_all_child(tier):
     """GEN: TLC enumerates the shape space of every constant set (initial states of GenInit). -> (shapes, [count per config])"""
     shapes, counts = [], []
-    for name in CONFIGS[tier]:
-        g = tlc.run("C04", "Sb2RomMC", f"Sb2RomGen{name}.cfg", workers=1, deadlock=False, heap="8g", timeout=600)
-        got = g.json_prints()
-        if len(got) != g.distinct or len(got) < 100:
-            raise Machinery(f"GEN Sb2RomGen{name}: {len(got)} shapes printed, {g.distinct} initial states")
+    for k, name in enumerate(CONFIGS[tier]):
+        tlc._counter[0] += 10 * k
+        got = _gen_one(name)
         counts.append(len(got))
         shapes += got
     return shapes, counts
@@ -682,19 +742,18 @@ def run(tier):
     quick = tier == "quick"
 
     # ---- MC + GEN (background) and canary
-    box = {}
-    th = threading.Thread(target=mc_all, args=(tier, box))
-    th.start()
+    mc_future = submit(mc_all, tier)
     try:
-        return _run(tier, sp, v, r, quick, th, box)
+        return _run(tier, sp, v, r, quick, mc_future)
     finally:
-        th.join()
+        pool().shutdown(wait=False, cancel_futures=True)
 
 
-def _run(tier, sp, v, r, quick, th, box):
+def _run(tier, sp, v, r, quick, mc_future):
+    gen_future = submit(gen_all_child, tier)
     canary(v)
     say(f"[C04] canary: {v.extra['canary'][:200]}... ({v.timer.s()}s)")
-    shapes, gen_counts = gen_all(tier)
+    shapes, gen_counts = gen_future.result()
     seen = set()
     shapes = [s for s in shapes if not (json.dumps(s, sort_keys=True) in seen or seen.add(json.dumps(s, sort_keys=True)))]
     say(f"[C04] GEN: {len(shapes)} distinct layout shapes enumerated by TLC ({v.timer.s()}s)")
@@ -702,7 +761,7 @@ def _run(tier, sp, v, r, quick, th, box):
     # ---- choose shapes, concretise (seeded), execute
     shapes.sort(key=lambda s: json.dumps(s, sort_keys=True))
     r.shuffle(shapes)
-    n_files = 900 if quick else 8000
+    n_files = 700 if quick else 7000
     chosen, seen_combo = [], {}
     for s in shapes:  # every (version, SHA, chain, section count, command counts, HMAC requests) combination is present
         combo = (s["ver"], s["sha"], s["chain"], tuple(len(x["cmds"]) for x in s["secs"]), tuple(x["hm"] for x in s["secs"]))
@@ -722,7 +781,7 @@ def _run(tier, sp, v, r, quick, th, box):
     residue_tour = list(range(16))
     r.shuffle(residue_tour)
     jobs = []
-    n_tamper_files = 36 if quick else 300
+    n_tamper_files = 30 if quick else 300
     stride = max(1, len(chosen) // n_tamper_files)
     for i, s in enumerate(chosen):
         g = concretise(s, i, rng(PROP, "file", i), plain_tour, residue_tour, sp.ks_ids, [1, 3, 6] if quick else [1, 3, 6, 20, 60])
@@ -732,7 +791,7 @@ def _run(tier, sp, v, r, quick, th, box):
     for ver in ("21", "20s", "20u"):
         s = {"ver": ver, "sha": ver == "21", "chain": "none" if ver == "20u" else "k0", "secs": [{"hm": 2, "cmds": [0, 1, 0]}]}
         g = concretise(s, len(jobs), rng(PROP, "allbits", ver), plain_tour, residue_tour, sp.ks_ids, [1])
-        jobs.append({"g": g, "tamper": 0, "all_bits": (r.randrange(32), 32) if quick else (r.randrange(2), 2)})
+        jobs.append({"g": g, "tamper": 0, "all_bits": (r.randrange(48), 48) if quick else (r.randrange(2), 2)})
     results = pmap(lambda job: process(sp, job), jobs, chunksize=2)
     traces = [t for res in results for t in res["traces"]]
     by_idx = {j["g"]["idx"]: j["g"] for j in jobs}
@@ -822,15 +881,13 @@ def _run(tier, sp, v, r, quick, th, box):
             v.sample({"id": t["id"], "kind": t["kind"], "mode": t["mode"], "version": vname(t["ver"]),
                       "given": {k: x for k, x in t["given"].items() if k != "secs"} if t["given"] else None,
                       "events": [{k: x for k, x in e.items() if k != "payload"} for e in t["ev"][:40]]})
-    th.join()
-    if "err" in box:
-        raise box["err"]
-    for res, n in zip(box["mc"], gen_counts):
+    mcs = mc_future.result()
+    for res, n in zip(mcs, gen_counts):
         v.add_mc(res)
         # (with several workers TLC's per-action counters may count a state twice; deadlock freedom is what proves that EVERY shape is accepted)
         if res.coverage.get("DoAccept", (0, 0))[1] < n:
             raise Machinery(f"MC accepted {res.coverage.get('DoAccept')} shapes but GEN enumerated {n} for the same constants")
-    say(f"[C04] MC: {sum(x.distinct for x in box['mc'])} states in {len(box['mc'])} runs: every enumerated shape is walked to Accepted, lemmas Complete / Sound / "
+    say(f"[C04] MC: {sum(x.distinct for x in mcs)} states in {len(mcs)} runs: every enumerated shape is walked to Accepted, lemmas Complete / Sound / "
         f"Tamper / FreshChunks hold, no stuck state, every action fired ({v.timer.s()}s)")
     v.cov["rule"] = ("TLC enumerates every layout shape (version x SHA flag x certificate chain x 1..2 sections x HMAC-table request x command sequences "
                      "by payload blocks) and proves the automaton accepts each ideal layout with full coverage; a seeded subset of the shapes "
